@@ -79,7 +79,7 @@ def dump_struct(v, p, out):
         h = v.has(f)
         out[p + f.name + ".has"] = b3(h)
         if f.kind == "virtual":
-            val = v.eval_ref([f.name])
+            val = v.eval_ref([f.name], top=True)
             out[p + f.name + ".ok"] = "UNSPEC" if val is UNSPEC else ("1" if known(val) else "0")
             if known(val):
                 out[p + f.name + ".val"] = valstr(None, val)
@@ -108,6 +108,60 @@ def dump_struct(v, p, out):
 def observe(module, struct_name, params, data):
     v = refsem.view(module, struct_name, params, data)
     return dump_struct(v, "", {})
+
+
+def _more_known(d):
+    k, mv, av = d
+    if k.endswith(".has"):
+        return mv == "U" and av in ("0", "1")
+    if k == "ok" or k.endswith(".ok"):
+        return mv == "0" and av == "1"
+    return mv is None and av is not None
+
+
+def reconcile(module, struct_name, params, data, diffs, rng, k=8):
+    """The implementation may report as known what the strict three-valued
+    reference calls unknown, when the value does not depend on the unreadable
+    leaves (refsem.Completion).  Such a difference is dropped iff the reported
+    value equals the reference value under every one of `k` random completions
+    (and at least one completion decides it); a report that some completion
+    contradicts stays a difference.  Returns (remaining diffs, excused)."""
+    import random
+    cands = [d for d in diffs if _more_known(d)]
+    if not cands:
+        return diffs, 0
+    comps = []
+    for _ in range(k):
+        refsem.COMPLETION = refsem.Completion(random.Random(rng.getrandbits(64)))
+        try:
+            comps.append(observe(module, struct_name, params, bytearray(data)))
+        except (RecursionError, KeyError, ValueError, TypeError, ZeroDivisionError):
+            pass
+        finally:
+            refsem.COMPLETION = None
+    keep, excused = [], 0
+    for d in diffs:
+        if d not in cands:
+            keep.append(d)
+            continue
+        key, _mv, av = d
+        decided = agree = 0
+        for c in comps:
+            tainted = [t[7:] for t in c if t.startswith("~taint~")] + [t[:-1] for t in c if t.endswith(".*")]
+            if any(key.startswith(t) for t in tainted):
+                continue
+            cv = c.get(key)
+            if cv is None or cv == "UNSPEC":
+                continue
+            if cv.startswith("OPT:"):
+                cv = cv[4:]
+            decided += 1
+            agree += cv == av
+        if decided and agree == decided:
+            excused += 1
+        else:
+            keep.append(d)
+    return keep, excused
 
 
 def compare(model, actual):
